@@ -321,12 +321,11 @@ class MindsDBLexer(Lexer):
 
     @_(r"'(?:\\.|[^'])*(?:''(?:\\.|[^'])*)*'")
     def QUOTE_STRING(self, t):
-        t.value = t.value.replace('\\"', '"').replace("\\'", "'").replace("''", "'")
+        # the token keeps the source text: escapes are decoded by the parser (see unquote_string_token)
         return t
 
     @_(r'"(?:\\.|[^"])*"')
     def DQUOTE_STRING(self, t):
-        t.value = t.value.replace('\\"', '"').replace("\\'", "'")
         return t
 
     @_(r'\n+')
@@ -339,14 +338,7 @@ class MindsDBLexer(Lexer):
        r'@"[a-zA-Z_.$][^"]*"'
        )
     def VARIABLE(self, t):
-        t.value = t.value.lstrip('@')
-
-        if t.value[0] == '"':
-            t.value = t.value.strip('\"')
-        elif t.value[0] == "'":
-            t.value = t.value.strip('\'')
-        elif t.value[0] == "`":
-            t.value = t.value.strip('`')
+        # the token keeps the source text: sigil and quotes are removed by the parser (see variable_token_to_name)
         return t
 
     @_(r'@@[a-zA-Z_.$]+',
@@ -355,14 +347,6 @@ class MindsDBLexer(Lexer):
        r'@@"[a-zA-Z_.$][^"]*"'
        )
     def SYSTEM_VARIABLE(self, t):
-        t.value = t.value.lstrip('@')
-
-        if t.value[0] == '"':
-            t.value = t.value.strip('\"')
-        elif t.value[0] == "'":
-            t.value = t.value.strip('\'')
-        elif t.value[0] == "`":
-            t.value = t.value.strip('`')
         return t
 
     def error(self, t):
